@@ -526,7 +526,7 @@ fn run_scenario(infos: &[ClientInfo], insts: &[Instances], sc: &Scenario, ch: &m
             facts.findings.push(Finding { class: "envelope-check-ignores-part".into(), key: "envelope-check-ignores-part".into(), detail: format!("{id}: check_restrictions on the envelope passes although the check of its own header/body part fails ({})", p.parts_check.clone().unwrap_err()) });
         }
         let why_restricted = p.twin_check.clone().err().or(p.parts_check.clone().err()).unwrap_or_default();
-        facts.calls_json.push(json!({"op": id, "request_variant": c.variant, "mutated_positions": positions, "twin_check": p.twin_check.clone().err(), "status": status, "body": BODY_KINDS[c.body_kind], "transport": TRANSPORTS[c.transport], "credentials": creds_name(sc.creds), "connections": connects, "response_body": body.chars().take(700).collect::<String>(), "result": match &result { Some(CallResult::Value(_)) => "Ok(value)".to_string(), Some(CallResult::Error { variant, text }) => format!("Err({variant}: {})", text.chars().take(80).collect::<String>()), None => "not completed".to_string() }}));
+        facts.calls_json.push(json!({"op": id, "request_variant": c.variant, "mutated_positions": positions, "twin_check": p.twin_check.clone().err(), "status": status, "body": BODY_KINDS[c.body_kind], "transport": TRANSPORTS[c.transport], "credentials": creds_name(sc.creds), "connections": connects, "response_body": body.chars().take(700).collect::<String>(), "response_body_full": if property == "calib" { Value::Null } else { Value::from(body.clone()) }, "result_class": match &result { Some(CallResult::Value(_)) => "value".to_string(), Some(CallResult::Error { variant, .. }) => (*variant).to_string(), None => "pending".to_string() }, "result": match &result { Some(CallResult::Value(_)) => "Ok(value)".to_string(), Some(CallResult::Error { variant, text }) => format!("Err({variant}: {})", text.chars().take(80).collect::<String>()), None => "not completed".to_string() }}));
 
         // N4: bounded progress / completion
         if result.is_none() {
@@ -900,6 +900,41 @@ fn main() {
             _ => {}
         }
         i += 1;
+    }
+    if args.get(1).map(String::as_str) == Some("calibrate-dump") {
+        // predictions of the stub for one client/operation, one line of JSON per script: used by sim/calib
+        let infos = clients::all();
+        let insts: Vec<Instances> = infos.iter().map(|i| Instances { v: simkernel::serde_json::from_str(i.instances_json).unwrap_or(Value::Null) }).collect();
+        let want = args.get(2).cloned().unwrap_or_else(|| "hello".into());
+        let Some(ci) = infos.iter().position(|i| i.name == want) else {
+            eprintln!("no client {want}");
+            std::process::exit(2);
+        };
+        let base = CallSpec { op: 0, variant: 1, mutmask: 0, status: 0, body_kind: 0, transport: 0, trunc: 40, splits: [5, 60, 120], latency: [0; 3], cut: 30 };
+        let mut out = Vec::new();
+        for status in 0..9 {
+            for body in 0..8 {
+                for transport in 0..5 {
+                    for creds in [0u64, 1] {
+                        let mut c = base.clone();
+                        c.status = status;
+                        c.body_kind = body;
+                        c.transport = transport;
+                        let tape = encode_single(ci, creds, &c);
+                        let (facts, _, _) = run_isolated(&infos, &insts, &tape, "C16");
+                        let call = &facts.calls_json[0];
+                        let reqs = sim::requests();
+                        out.push(json!({"status": STATUSES[status], "body_kind": BODY_KINDS[body], "transport": TRANSPORTS[transport], "credentials": creds_of(creds),
+                            "response_body": call["response_body_full"], "cut_at": 30, "splits": [5, 60, 120],
+                            "request_xml": insts[ci].request(infos[ci].ops[0], 1, 0).0,
+                            "stub_result": call["result_class"], "stub_connections": call["connections"],
+                            "stub_request_body": reqs.first().map(|r| r.1.body.clone()), "stub_auth": reqs.first().and_then(|r| r.1.auth.clone())}));
+                    }
+                }
+            }
+        }
+        println!("{}", Value::from(out));
+        return;
     }
     let infos = clients::all();
     if infos.is_empty() {
